@@ -1,5 +1,5 @@
 from kernel.type import TFun, IntType
-from kernel.term import Var, Int, Eq, Term, Sum, Prod, equals, Const, less, less_eq, greater, greater_eq, Not, int_power, Nat
+from kernel.term import Var, Int, Eq, Term, Sum, Prod, equals, Const, less, less_eq, greater, greater_eq, Not, nat_power, Nat
 from kernel import term_ord
 from kernel.proofterm import ProofTerm, refl
 from kernel.macro import Macro
@@ -150,7 +150,7 @@ def from_mono(m):
         if power == 1:
             factors.append(base)
         else:
-            factors.append(int_power(base, Nat(power)))
+            factors.append(nat_power(IntType)(base, Nat(power)))
     if m.coeff != 1:
         factors = [Int(m.coeff)] + factors
     return Prod(IntType, factors)
@@ -382,10 +382,6 @@ class simp_full(Conv):
                 rewr_conv('int_mul_1_l', sym=True))
 
 class int_norm_conv(Conv):
-    def eval(self, t):
-        norm_t = from_poly(convert_to_poly(t))
-        return Thm(Eq(t, norm_t))
-
     def get_proof_term(self, t):
         return refl(t).on_rhs(
             simp_full(),
